@@ -14,16 +14,20 @@ from imperative import com
 
 
 grammar = r"""
-    ?expr: CNAME -> var_expr
-        | expr "." CNAME -> field_expr
-        | expr "[" expr "]" -> array_expr
+    ?atom: CNAME -> var_expr
+        | atom "." CNAME -> field_expr
+        | atom "[" expr "]" -> array_expr
         | INT -> num_expr
-        | expr "+" expr -> plus_expr
-        | "-" expr -> uminus_expr
-        | expr "-" expr -> minus_expr
-        | expr "*" expr -> times_expr
         | CNAME "(" expr ("," expr)* ")" -> fun_expr
         | "(" expr ")"
+
+    ?uminus: "-" uminus -> uminus_expr | atom   // Unary minus: priority 80
+
+    ?times: times "*" uminus -> times_expr | uminus   // Multiplication: priority 70
+
+    ?expr: expr "+" times -> plus_expr       // Addition and subtraction: priority 65
+        | expr "-" times -> minus_expr
+        | times
 
     ?atom_cond: expr "==" expr -> eq_cond
         | expr "!=" expr -> ineq_cond
@@ -34,7 +38,7 @@ grammar = r"""
         | "forall" CNAME "." cond -> forall_cond
         | "(" cond ")"
 
-    ?neg: "~" atom_cond -> neg | atom_cond  // Negation: priority 40
+    ?neg: "~" neg -> neg | atom_cond  // Negation: priority 40
     
     ?conj: neg "&" conj | neg     // Conjunction: priority 35
 
